@@ -81,8 +81,7 @@ fn fresh_128(host_rom: bool) -> Emu {
     }
     rig::cpu_out(&mut e, CODE, 0x7FFD, 0);
     // the code bytes at CODE (bank 2) overwrite two marker bytes; restore them
-    let fix = [marker(2, 0x100), marker(2, 0x101)];
-    rig::poke(&mut e, CODE, &fix);
+    restore_code_markers(&mut e, 2);
     e
 }
 
@@ -185,13 +184,45 @@ fn full_oracle(ctx: &Ctx, e: &mut Emu, r: &RefMem, roms: &Roms, hist: &[u8], hos
     }
 }
 
+/// Addresses that select the paging latch and nothing else (odd, A15=0, A1=0).
+const PAGING_ALIASES: [u16; 6] = [0x7FFD, 0x3FFD, 0x1FFD, 0x00FD, 0x7F3D, 0x5555];
+
+/// The `idx`-th paging write of a history, executed by the emulated CPU. The instruction form and
+/// the port alias rotate deterministically with (idx, value): OUT (C),A / OUT (n),A (port high
+/// byte = A, so only for values < 0x80) / OUTI (port high byte = B after the decrement).
+fn paging_write(e: &mut Emu, idx: usize, v: u8) -> (u16, &'static str) {
+    let alias = PAGING_ALIASES[(idx * 5 + v as usize) % PAGING_ALIASES.len()];
+    match (idx + v as usize / 3) % 3 {
+        1 if v < 0x80 => {
+            e.verif_cpu().regs.set_acc(v);
+            rig::run_code(e, CODE, &[0xD3, 0xFD], 1);
+            ((v as u16) << 8 | 0xFD, "OUT (n),A")
+        }
+        2 => {
+            let cpu = e.verif_cpu();
+            cpu.regs.set_bc(alias.wrapping_add(0x0100));
+            cpu.regs.set_hl(CODE + 2);
+            rig::run_code(e, CODE, &[0xED, 0xA3, v], 1);
+            (alias, "OUTI")
+        }
+        _ => {
+            rig::cpu_out(e, CODE, alias, v);
+            (alias, "OUT (C),A")
+        }
+    }
+}
+
+fn restore_code_markers(e: &mut Emu, bank: u8) {
+    let fix = [marker(bank, 0x100), marker(bank, 0x101), marker(bank, 0x102)];
+    rig::poke(e, CODE, &fix);
+}
+
 fn apply_history(e: &mut Emu, r: &mut RefMem, hist: &[u8]) {
-    for v in hist {
-        rig::cpu_out(e, CODE, 0x7FFD, *v);
+    for (i, v) in hist.iter().enumerate() {
+        paging_write(e, i, *v);
         r.out(*v);
     }
-    let fix = [marker(2, 0x100), marker(2, 0x101)];
-    rig::poke(e, CODE, &fix);
+    restore_code_markers(e, 2);
 }
 
 fn bfs_128(ctx: &Ctx, roms: &Roms, host_rom: bool) {
@@ -222,7 +253,8 @@ fn bfs_128(ctx: &Ctx, roms: &Roms, host_rom: bool) {
             let mut r = RefMem::reset();
             apply_history(&mut e, &mut r, hist);
             let before_ram_digest = crate::vcore::fnv(e.verif_ram_bank(r.top()));
-            rig::cpu_out(&mut e, CODE, 0x7FFD, *v);
+            let (port, form) = paging_write(&mut e, hist.len(), *v);
+            restore_code_markers(&mut e, 2);
             let was_locked = r.locked;
             let prev = r;
             r.out(*v);
@@ -234,8 +266,8 @@ fn bfs_128(ctx: &Ctx, roms: &Roms, host_rom: bool) {
                 ctx.violation(
                     &format!("C06:latch:{}:{}", if host_rom { "hostrom" } else { "embedded" }, cls),
                     &format!(
-                        "after OUT history {:02x?} paging state is {:?}, reference {:?} (previous latch {:02x} locked={})",
-                        h2, k, r.key(), prev.last, prev.locked
+                        "after OUT history {:02x?} (last write by {} to port {:04x}) paging state is {:?}, reference {:?} (previous latch {:02x} locked={})",
+                        h2, form, port, k, r.key(), prev.last, prev.locked
                     ),
                     json!({"kind":"latch","history":h2,"host_rom":host_rom}),
                 );
@@ -316,7 +348,10 @@ fn check_48(ctx: &Ctx) {
         for port in [0x7FFDu16, 0x00FD, 0x3FFD] {
             rig::cpu_out(&mut e, CODE, port, v);
         }
-        rig::poke(&mut e, CODE, &[marker(1, 0x100), marker(1, 0x101)]);
+        for idx in 0..3 {
+            paging_write(&mut e, idx, v);
+        }
+        restore_code_markers(&mut e, 1);
         let k1 = e.verif_paging();
         let mut bad = None;
         if k0.3 != k1.3 {
@@ -367,7 +402,7 @@ pub fn run(tier: Tier, seed: u64, replay: Option<String>) -> i32 {
     bfs_128(&ctx, &host, true);
     check_48(&ctx);
     ctx.finish(
-        "BFS from reset over the complete 128K paging state (last accepted 7FFD byte, lock, screen bank, map) with all 256 OUT values per state, each transition replayed on a fresh real Emulator (OUT executed by the emulated CPU) in lock step with RefMem; in every distinct state: peek at all 65536 addresses, CPU stores/loads at 4 offsets x 4 windows with an all-banks RAM diff; embedded and host-supplied ROM sets; 48K: all 256 values x 3 port aliases leave map and memory unchanged. distinct = distinct paging states reached",
+        "BFS from reset over the complete 128K paging state (last accepted 7FFD byte, lock, screen bank, map) with all 256 OUT values per state, each transition replayed on a fresh real Emulator (write executed by the emulated CPU; the instruction form OUT (C),A / OUT (n),A / OUTI and the port alias among 7FFD, 3FFD, 1FFD, 00FD, 7F3D, 5555 rotate with history position and value) in lock step with RefMem; in every distinct state: peek at all 65536 addresses, CPU stores/loads at 4 offsets x 4 windows with an all-banks RAM diff; embedded and host-supplied ROM sets; 48K: all 256 values x 3 port aliases x 3 instruction forms leave map and memory unchanged. distinct = distinct paging states reached",
         true,
         &["marker RAM is written with execute_poke through the 0xC000 window after CPU-executed paging OUTs", "hooks: verif_paging, verif_ram_bank (read-only)"],
     )
